@@ -97,3 +97,78 @@ func (v *VerifQueue) Clear() {
 func (v *VerifQueue) All() []uint64 {
 	return v.toIDs(v.q.All(), true)
 }
+
+// MaxHeap returns the identifiers of the transactions currently held by the
+// scheduler's max heap (the "pending schedule" transactions), sorted.
+func (v *VerifQueue) MaxHeap() []uint64 {
+	s := v.q.scheduler
+	out := make([]uint64, 0, len(s.maxHeap))
+	for _, tx := range s.maxHeap {
+		out = append(out, v.ids[tx.meta.hash])
+	}
+	sort.Slice(out, func(i, j int) bool { return out[i] < out[j] })
+	return out
+}
+
+// MaxHeapCheck checks the max heap's own bookkeeping: every element records
+// its position, every queued transaction outside the heap records -1, and
+// no child has a higher priority than its parent. Returns "" or the violation.
+func (v *VerifQueue) MaxHeapCheck() string {
+	s := v.q.scheduler
+	in := make(map[*mainQueueTransaction]bool, len(s.maxHeap))
+	for i, tx := range s.maxHeap {
+		if tx == nil {
+			return fmt.Sprintf("nil element at %d", i)
+		}
+		if tx.maxHeapIndex != i {
+			return fmt.Sprintf("tx %d at %d records index %d", v.ids[tx.meta.hash], i, tx.maxHeapIndex)
+		}
+		if in[tx] {
+			return fmt.Sprintf("tx %d held twice", v.ids[tx.meta.hash])
+		}
+		in[tx] = true
+		if i > 0 && s.maxHeap[(i-1)/2].priority < tx.priority {
+			return fmt.Sprintf("tx %d at %d has a higher priority than its parent", v.ids[tx.meta.hash], i)
+		}
+		if s.txs[tx.meta.hash] != tx {
+			return fmt.Sprintf("tx %d in the heap is not queued", v.ids[tx.meta.hash])
+		}
+	}
+	for _, tx := range s.txs {
+		if !in[tx] && tx.maxHeapIndex != -1 {
+			return fmt.Sprintf("tx %d outside the heap records index %d", v.ids[tx.meta.hash], tx.maxHeapIndex)
+		}
+	}
+	return ""
+}
+
+// Scheduled returns a copy of the scheduler's per-pass map from sender to
+// last scheduled sequence number.
+func (v *VerifQueue) Scheduled() map[string]uint64 {
+	out := make(map[string]uint64, len(v.q.scheduler.scheduled))
+	for a, q := range v.q.scheduler.scheduled {
+		out[a] = q
+	}
+	return out
+}
+
+// VerifSender is a sender heap's state: current sequence number and the
+// identifiers of its transactions, sorted.
+type VerifSender struct {
+	Seq uint64
+	IDs []uint64
+}
+
+// Senders returns the state of every registered sender heap.
+func (v *VerifQueue) Senders() map[string]VerifSender {
+	out := make(map[string]VerifSender, len(v.q.scheduler.senders))
+	for a, h := range v.q.scheduler.senders {
+		ids := make([]uint64, 0, len(h.seqHeap))
+		for _, tx := range h.seqHeap {
+			ids = append(ids, v.ids[tx.meta.hash])
+		}
+		sort.Slice(ids, func(i, j int) bool { return ids[i] < ids[j] })
+		out[a] = VerifSender{Seq: h.seq, IDs: ids}
+	}
+	return out
+}
